@@ -84,7 +84,7 @@ def _effective(st):
     return st['min'], st['max']
 
 
-def _config_text(st):
+def _config_text(st, order=0):
     parts = []
     if st['min'] is not None:
         parts.append(f"qq_depth_min.{st['min']}")
@@ -94,6 +94,11 @@ def _config_text(st):
         parts.append(f"qq_depth.{st['depth']}")
     if st['bh']:
         parts.append('break_halves')
+    # the settings of a config text may come in any order
+    if order % 2:
+        parts.reverse()
+    k = (order // 2) % max(1, len(parts))
+    parts = parts[k:] + parts[:k] if order % 4 >= 2 else parts
     return ','.join(parts)
 
 
@@ -107,7 +112,8 @@ def check_case(chain, st, channel, ctx, rep, pytrs):
              shape=f"len={len(chain)}|{channel}", sample=case)
     with ctx.guard(case):
         if channel == 'config':
-            t = pytrs.Tract(text, parse_qq=True, config=_config_text(st))
+            t = pytrs.Tract(text, parse_qq=True,
+                            config=_config_text(st, len(chain) + len(text)))
             qqs, whole = t.qqs, t.aliquots_whole
             ctx.hit('boundary:Tract.qqs')
         elif channel == 'keyword':
@@ -169,6 +175,18 @@ def check_case(chain, st, channel, ctx, rep, pytrs):
             tl.parse_tracts()
             qqs, whole = tl[0].qqs, None
             ctx.hit('boundary:TractList.parse_tracts')
+        elif channel == 'parse_tracts-config':
+            # a description parsed under the defaults; its tracts are then
+            # re-parsed under a config handed to parse_tracts()
+            d = pytrs.PLSSDesc(f"T154N-R97W Sec 14: {text}", parse_qq=True)
+            own = _config_text(st, len(chain))
+            if st['min'] is None and st['depth'] is None:
+                own = (own + ',qq_depth_min.2').lstrip(',')
+            d.parse_tracts(config=own)
+            qqs = d.tracts[0].qqs if len(d.tracts) == 1 else None
+            ctx.hit('boundary:PLSSDesc.parse_tracts(config)')
+            if qqs is None:
+                return
         elif channel == 'keyword-over-config':
             # a configured exact depth is ignored once min/max (or another
             # depth) is passed as keyword -- documented in Tract.parse
@@ -212,7 +230,8 @@ CHANNELS = ('config', 'keyword', 'direct', 'keyword-over-config',
             'config', 'keyword', 'direct', 'plssdesc',
             'config', 'keyword', 'direct', 'keyword-over-config',
             'config', 'keyword', 'direct', 'plssdesc-keyword',
-            'config', 'keyword', 'reconfigure', 'direct')
+            'config', 'keyword', 'reconfigure', 'direct',
+            'parse_tracts-config')
 
 
 def run_shard(shard, ctx):
